@@ -649,6 +649,9 @@ fn gen_reg(thorough: bool, rng: &mut Rng) -> Result<(), String> {
                 (3, false, vec![json!({"op":"update","issued":[1,2],"revoked":[0]}), json!({"op":"update","issued":[1,2],"revoked":[4]}), json!({"op":"update","issued":[1,2],"revoked":[]})]),
                 (3, true, vec![json!({"op":"revoke","i":1}), json!({"op":"update","issued":[1],"revoked":[4294967295u32]}), json!({"op":"update","issued":[1],"revoked":[2,5]})]),
                 (4, false, vec![json!({"op":"issue","i":2}), json!({"op":"update","issued":[1,5],"revoked":[2]}), json!({"op":"update","issued":[0,1],"revoked":[2]}), json!({"op":"update","issued":[1,3],"revoked":[2]})]),
+                // capacity 0: no index is valid in either mode, every operation is out of range
+                (0, true, vec![json!({"op":"revoke","i":0}), json!({"op":"revoke","i":1}), json!({"op":"update","issued":[1],"revoked":[]})]),
+                (0, false, vec![json!({"op":"issue","i":1}), json!({"op":"issue","i":0}), json!({"op":"update","issued":[],"revoked":[1]})]),
             ];
             let opts = HistOpts { max_l: 32, max_depth: 40, with_holders: true, illformed_pct: 4, wild_pct: 10 };
             for (k, (l, bd, ops)) in corpus.into_iter().enumerate() {
